@@ -89,6 +89,9 @@ _FIELD_VALUE_FORBIDDEN_CTL_RE: Final[Pattern[str]] = re.compile(
 # https://www.rfc-editor.org/rfc/rfc9112.html#section-3.2
 # request-target never contains CTLs, SP or DEL.
 _TARGET_FORBIDDEN_RE: Final[Pattern[str]] = re.compile(r"[\x00-\x20\x7f]")
+_CHUNK_EXT_FORBIDDEN_CTL_RE: Final[Pattern[bytes]] = re.compile(
+    rb"[\x00-\x08\x0a-\x1f\x7f]"
+)
 VERSRE: Final[Pattern[str]] = re.compile(r"HTTP/(\d)\.(\d)", re.ASCII)
 DIGITS: Final[Pattern[str]] = re.compile(r"\d+", re.ASCII)
 HEXDIGITS: Final[Pattern[bytes]] = re.compile(rb"[0-9a-fA-F]+")
@@ -1026,6 +1029,16 @@ class HttpPayloadParser:
                             if b"\n" in (ext := chunk[i:pos]):
                                 exc = TransferEncodingError(
                                     f"Unexpected LF in chunk-extension: {ext!r}"
+                                )
+                                set_exception(self.payload, exc)
+                                raise exc
+                            # Same forbidden bytes as in a field value (bare CR,
+                            # NUL, other CTLs); lax mode only looks for LF.
+                            if not self._lax and _CHUNK_EXT_FORBIDDEN_CTL_RE.search(
+                                ext
+                            ):
+                                exc = TransferEncodingError(
+                                    f"Invalid character in chunk-extension: {ext!r}"
                                 )
                                 set_exception(self.payload, exc)
                                 raise exc
